@@ -19,6 +19,26 @@ import (
 type Msg struct {
 	Size int  `json:"size"`
 	Flag bool `json:"flag"` // compressed flag on the wire
+	// Fill "rep": a highly compressible payload (a few KiB on the wire for
+	// megabytes of message) instead of one of the PRNG textures.
+	Fill string `json:"fill,omitempty"`
+}
+
+// RepPayload is a highly compressible payload that is still position
+// dependent: a 61-byte text repeated, with the block number stamped every
+// 64 KiB, so that truncation, shifts and swapped blocks are visible.
+func RepPayload(pseed uint64, i, size int) []byte {
+	const pat = "martian grpc highly compressible payload for inflation test.\n"
+	b := make([]byte, size)
+	for j := 0; j < size; j += len(pat) {
+		copy(b[j:], pat)
+	}
+	tag := uint32(mix(pseed^uint64(i)) >> 40)
+	for j := 0; j+8 <= size; j += 64 << 10 {
+		binary.BigEndian.PutUint32(b[j:], uint32(j>>16))
+		binary.BigEndian.PutUint32(b[j+4:], tag)
+	}
+	return b
 }
 
 func mix(x uint64) uint64 {
@@ -157,6 +177,9 @@ func Render(enc string, msgs []Msg, pseed uint64) *Rendered {
 	r := &Rendered{}
 	for i, m := range msgs {
 		p := Payload(pseed, i, m.Size)
+		if m.Fill == "rep" {
+			p = RepPayload(pseed, i, m.Size)
+		}
 		w := p
 		if m.Flag {
 			w = Compress(enc, p)
